@@ -1,16 +1,17 @@
 #!/bin/sh
-# usage: confirm_seed.sh <Cnn> <A|B> : confirm one seeded change in a fresh scratch worktree of /repo HEAD:
+# usage: confirm_seed.sh <Cnn> <A|B> [srcdir] : confirm one seeded change in a fresh scratch worktree of /repo HEAD:
 #   patch applies, the repository's suite passes with it, the demo fails with it and passes without it.
+#   srcdir defaults to /tmp/wt-<Cnn>/_seed (round 1); round 2 used /tmp/w2-<Cnn>/_seed
 P=$1; X=$2
-SRC=/tmp/wt-$P/_seed
+SRC=${3:-/tmp/wt-$P/_seed}
 WT=/tmp/cs-$P-$X
 git -C /repo worktree add -q --detach $WT HEAD || exit 9
 mkdir -p $WT/_seed; cp $SRC/demo_$X.py $WT/_seed/; cp $SRC/patch_$X.diff $WT/_seed/
 cd $WT
 R_APPLY=fail; git apply _seed/patch_$X.diff && R_APPLY=ok
 R_SUITE=$(/venv/bin/python -m pytest -q -p no:cacheprovider --timeout=900 2>&1 | tail -1)
-/venv/bin/python _seed/demo_$X.py > _seed/demo_with.log 2>&1; R_WITH=$?
+timeout 1200 /venv/bin/python _seed/demo_$X.py > _seed/demo_with.log 2>&1; R_WITH=$?
 git checkout -q -- sedfitter
-/venv/bin/python _seed/demo_$X.py > _seed/demo_without.log 2>&1; R_WITHOUT=$?
+timeout 1200 /venv/bin/python _seed/demo_$X.py > _seed/demo_without.log 2>&1; R_WITHOUT=$?
 echo "$P $X apply=$R_APPLY suite=[$R_SUITE] demo_with_change_exit=$R_WITH demo_without_change_exit=$R_WITHOUT"
 cd /; git -C /repo worktree remove --force $WT
